@@ -1,4 +1,5 @@
 \* quick: client close, server shutdown, read limit; <= 2 frames
+\* measured: 86 183 distinct / 213 340 generated states, depth 22
 CONSTANTS
   FrameAlphabet <- FramesEnd
   MaxFrames = 2
